@@ -1,6 +1,7 @@
 // arrayad driver, statement menu part 3: conditional assignment and integer-vector indexing (ranks 1 and 2).
 //   whr T A B C      T.where(A > B) = C            whrs T A B c   T.where(A > B) = c (passive scalar)
-//   whra T A B s     T.where(A > B) = s (adouble)
+//   (T.where(mask) = <adouble> does not compile with the pinned library: assign_conditional asks a rank-0 expression for
+//    rank-R dimensions; it is therefore not on the menu)
 //   wheo T P c A B   T.where(P > c) = either_or(A, B)          wheos T P c A d   T.where(P > c) = either_or(A, d)
 //   ixt T i A        T(i) = A          ixe T i A B    T(i) = A*B        ixts T i s   T(i) = s (adouble)    ixtc T i c   T(i) = c
 //   ixs T A i        T = A(i)          ixss T A i B   T = A(i)*B        ixtt T i A j T(i) = A(j)
@@ -34,17 +35,15 @@ int exec_s3(const Words& w, Ctx& c) {
         t.where(a > b) = cc; return true; }); }); }) ? 1 : -1;
     });
   }
-  if ((k == "whrs" || k == "whra") && w.size() == 5) {
+  if (k == "whrs" && w.size() == 5) {
     Obj* T = target(w[1]); if (!T) return -1;
-    Obj* S = k == "whra" ? getk(w[4], K_SCAL) : 0; if (k == "whra" && !S) return -1;
     double cv = atof(w[4].c_str());
     return by_rank12(T, [&](auto Rc) {
       constexpr int R = decltype(Rc)::value;
       Obj* A = geta(w[2], R); Obj* B = geta(w[3], R); if (!A || !B) return -1;
-      if (S) c.pre({T, A, B, S}); else c.pre({T, A, B});
+      c.pre({T, A, B});
       auto& t = as<R, true>(*T);
-      return with<R>(A, [&](auto& a) { return with<R>(B, [&](auto& b) {
-        if (S) t.where(a > b) = asS(*S); else t.where(a > b) = cv; return true; }); }) ? 1 : -1;
+      return with<R>(A, [&](auto& a) { return with<R>(B, [&](auto& b) { t.where(a > b) = cv; return true; }); }) ? 1 : -1;
     });
   }
   if (k == "wheo" && w.size() == 6) {
